@@ -246,6 +246,7 @@ func runC09(p *core.Prog, r *core.Report) {
 
 	// R3
 	r.Guard("C09.R3", "PartialKV/overrides", "side state completeness", func() { checkPartialOverrides(p, r, "C09.R3") })
+	r.Guard("C09.R3", "PartialKV/seen", "seen marks recorded prefixes only", func() { checkSeenOnlyWithRecordedPrefix(p, r, "C09.R3") })
 
 	// R4 cached branch of RunModule
 	r.Guard("C09.R4", "RunModule", "cached branch", func() {
